@@ -222,6 +222,7 @@ Inherited == {"color", "fontStyle", "fontWeight", "visibility", "wrapOption", "t
 Default(p) == CASE p = "color" -> "white" [] p = "backgroundColor" -> "transparent" [] p = "fontStyle" -> "normal"
                 [] p = "fontWeight" -> "normal" [] p = "visibility" -> "visible" [] p = "wrapOption" -> "wrap"
                 [] p = "textAlign" -> "start" [] p = "displayAlign" -> "before" [] p = "showBackground" -> "always"
+                [] p = "opacity" -> "1"
                 [] OTHER -> "?"
 InitialOf(I, p) == IF Has(I, p) THEN Get(I, p) ELSE Default(p)
 
@@ -242,7 +243,7 @@ ObsProps(kind) ==
   CASE kind \in {"body", "div"} -> <<"backgroundColor", "visibility">>
     [] kind = "p"      -> <<"backgroundColor", "visibility", "textAlign">>
     [] kind = "span"   -> <<"color", "backgroundColor", "fontStyle", "fontWeight", "visibility", "wrapOption">>
-    [] kind = "region" -> <<"backgroundColor", "displayAlign", "showBackground", "visibility">>
+    [] kind = "region" -> <<"backgroundColor", "displayAlign", "showBackground", "visibility", "opacity">>
     [] OTHER -> <<>>
 
 Tokens(N, I, spec, iv, x, t, rnode) ==
